@@ -1010,6 +1010,24 @@ DENSE_CASES = sum(DENSE_SIZES) * NR
 BLOCK = 16
 
 
+def fresh_states(d, start, kind):
+    """the same automaton with state names that are equal but never the same
+    object wherever they occur (keys, targets, start): tuples, ints above 256,
+    strings assembled at run time.  CPython caches small ints and source
+    literals, so `is` and `==` agree on those and only on those (seeded change
+    C10-r6-1: `head is not vertex` in delete_vertex, reached through recurrent())."""
+    def mk(x):
+        if kind == "tuple":
+            return (x, "q")
+        if kind == "big-int":
+            return int(str(1000 + int(x))) if isinstance(x, int) else (x, 1000)
+        return "".join(["s", str(x)])
+    return {mk(v): {lab: mk(t) for lab, t in row.items()} for v, row in d.items()}, mk(start)
+
+
+FRESH_KINDS = ("tuple", "big-int", "built-string")
+
+
 def dense_case(run, rng, code):
     """code -> (table, route).  Every table meets every route; the results of
     the operations are re-queried for one route per table (rotating)."""
@@ -1019,7 +1037,11 @@ def dense_case(run, rng, code):
         if code < size:
             d = fl.dense_decode(code, n, labs)
             full = (code % NR == r)
-            exercise(run, rng, d, 0, list(labs), fsa_build.ROUTES[r], Lw=4 if full else 3,
+            start = 0
+            if code % 3 == 1:
+                # every third table with state names that are never the same object
+                d, start = fresh_states(d, 0, FRESH_KINDS[(code // 3) % 3])
+            exercise(run, rng, d, start, list(labs), fsa_build.ROUTES[r], Lw=4 if full else 3,
                      Le=4 if full else 3, derived=full, all_starts=full)
             return
         code -= size
@@ -1048,12 +1070,16 @@ def wl_small_tables(run, rng, idx):
     code = int(rng.integers(0, tot))
     d = fl.dense_decode(code, n, labs)
     start = int(rng.integers(0, n))
+    if idx % 2 == 1:
+        d, start = fresh_states(d, start, FRESH_KINDS[(idx // 2) % 3])
     exercise(run, rng, d, start, list(labs), fsa_build.ROUTES[int(rng.integers(0, NR))],
              Lw=3 if len(labs) == 3 else 4, Le=4, derived=(idx % 2 == 0))
 
 
 def wl_random(run, rng, idx):
     d, start, labels = fl.random_automaton(rng, max_states=10)
+    if idx % 2 == 1:
+        d, start = fresh_states(d, start, FRESH_KINDS[(idx // 2) % 3])
     rt = fsa_build.ROUTES[idx % NR]
     n = len(labels)
     exercise(run, rng, d, start, labels, rt, Lw={1: 5, 2: 4, 3: 4, 4: 3}[n], Le=4,
